@@ -26,7 +26,8 @@ INFO = {
                "that drop None (filter_map, flat_map, flatten) see evaluated arguments only in the four element-wise "
                "mapping functions; no index, size or count is narrowed or re-signed by an `as` cast (one tabled site); "
                "names and keys written in an expression are decoded as UTF-8, never byte by byte; the sorting "
-               "functions use the one comparator and a stable sort.",
+               "functions use the one comparator and a stable sort; (take xs 0) and (take_last xs 0), evaluated on a "
+               "one-element array and object with N seeded to 0, add nothing to their result.",
     "not_decided": "What any function returns: (take xs 0), (take_last \"1234\" 2), (sum ..), the order inside the "
                    "sorting functions, the texts of the documentation. No run-time test stands in for that; the "
                    "property is claimed for the four structural clauses only.",
@@ -183,6 +184,7 @@ def run(ctx, rep):
                  floors={"C05-PANIC-CENSUS": 20})
     absent_not_skipped(rep, lib)
     narrowing_casts(rep, lib)
+    zero_takes_nothing(rep, lib)
     # names and keys written in an expression are UTF-8 text (shared with C15)
     from rules import printer_rules as _PR
     _PR.byte_text(rep, lib)
@@ -195,3 +197,72 @@ def run(ctx, rep):
     _c18.arity_use(rep, ctx)
     from rules import c13 as _c13
     common.share(_c13, ctx, rep, {"C13-ALIAS-TABLE", "C13-ALIAS-BLIND"})
+
+
+# ------------------------------------------------------------------ C04-ZERO-TAKES-NOTHING
+
+def zero_takes_nothing(rep, lib):
+    """'honour N = 0': (take xs 0) and (take_last xs 0) keep no element. Decided by partial evaluation of the
+    function's get() with N seeded to 0 and a non-empty array / object as the collection: no element may be added to
+    the result on any path (a loop that adds first and compares the length with N afterwards keeps one element - and,
+    with `==`, all of them)."""
+    from lib.peval import PE, ok as OK, some, NONE
+    r = rep.rule("C04-ZERO-TAKES-NOTHING", "with N = 0 the keep-N functions add no element to their result: for a "
+                 "non-empty array and a non-empty object, no push / insert into the collection being built is "
+                 "reachable when the size argument is 0", floor=4,
+                 analysis="A5 partial evaluation of Impl::get with the size conversion seeded to Ok(0), the collection "
+                          "seeded to a non-empty array / object (its iterator yields one element, then ends), the "
+                          "length of the collection being built tracked per path")
+    jv = lib.adts.get("json_value::JsonValue")
+    if not jv:
+        r.missing("json_value::JsonValue")
+        return r
+    vn = [v["name"] for v in jv["variants"]]
+    eq_ok = common.derived_eq_ok(lib)
+    for mod in ("functions::basic::collection::take", "functions::basic::collection::take_last"):
+        bs = [bd for n, bd in lib.bodies.items() if n.startswith("<" + mod + "::") and n.endswith(" as selection::Get>::get")]
+        if len(bs) != 1:
+            r.missing(mod + " Impl::get")
+            continue
+        b = bs[0]
+        for kind in ("Array", "Object"):
+            key = "%s[%s, N=0]" % (mod.rsplit("::", 1)[-1], kind)
+            added = []
+
+            def model(c, av, envv, pe, kind=kind, added=added):
+                n = c.name or ""
+                cal = c.callee or ""
+                if n.endswith("functions_definitions::Arguments>::apply"):
+                    k = av[2] if len(av) > 2 else None
+                    if k is not None and k[0] == "i" and k[1] == 0:
+                        return (True, some(("adt", vn.index(kind), (None,))))
+                    return (True, some(None))
+                if cal.endswith("TryInto::try_into") or cal.endswith("TryFrom::try_from"):
+                    return (True, OK(("i", 0)))
+                if cal.endswith("Iterator::next") or cal.endswith("DoubleEndedIterator::next_back"):
+                    i = envv.get(-8, ("i", 0))[1]
+                    envv[-8] = ("i", i + 1)
+                    return (True, some(None) if i == 0 else NONE)
+                last = n.rsplit("::", 1)[-1]
+                if last in ("push", "insert", "push_back", "push_front", "insert_full") and b.in_loop(c.bb):
+                    i = envv.get(-9, ("i", 0))[1]
+                    envv[-9] = ("i", i + 1)
+                    added.append(c)
+                    return (True, None)
+                if last == "len" and b.in_loop(c.bb):
+                    return (True, envv.get(-9, ("i", 0)))
+                if last == "len":
+                    return (True, ("i", 1))      # the collection given has the one element its iterator yields
+                return None
+            try:
+                res = PE(b, model, eq_ok=eq_ok, crate=lib, max_states=40000).run()
+            except RuntimeError:
+                r.bad(key, "state budget exceeded (unrecognised idiom)", b.where())
+                continue
+            if added:
+                r.bad(key, "with N = 0 an element is added to the result (%s) before the length is compared with N: "
+                      "(%s xs 0) keeps elements instead of none" % (added[0].name, mod.rsplit("::", 1)[-1]),
+                      added[0].where())
+            else:
+                r.ok(key, "nothing is added when N = 0 (%d return(s) explored)" % len(res.returns), b.where())
+    return r
